@@ -1,0 +1,47 @@
+//go:build verif
+
+// Contracts for package attachment, read by /verif/govc. Comment-only; never compiled into the server.
+package attachment
+
+// ---------------------------------------------------------------------------------------------
+// C16: missing byte ranges. Received chunks are the entries offset -> length of OffsetRecord; the statement's domain:
+// every chunk lies inside the file and has positive length (so offset+length does not wrap in uint32).
+// ---------------------------------------------------------------------------------------------
+//@ spec chunksok(p *Package) bool = forallint(k, has(p.OffsetRecord, k) ==> 0 <= k && 0 < p.OffsetRecord[k] && k + p.OffsetRecord[k] <= int(p.FileSize))
+//@ spec covered(p *Package, b uint32) bool = existsint(k, has(p.OffsetRecord, k) && k <= int(b) && int(b) < k + p.OffsetRecord[k])
+
+//@ func (*Package).StatisticalMissSegments
+//@   requires C16.dom: chunksok(p)
+//@   ensures C16.complete: p.CurrentSize == p.FileSize ==> result == nil
+//@   ensures C16.positive: forall(q, 0, len(result), result[q].DataLength > 0)
+//@   ensures C16.inside: forall(q, 0, len(result), int(result[q].DataOffset) + int(result[q].DataLength) <= int(p.FileSize))
+//@   ensures C16.ascending: forall(q, 0, len(result)-1, int(result[q].DataOffset) + int(result[q].DataLength) < int(result[q+1].DataOffset))
+//@   ensures C16.none_omitted: p.CurrentSize != p.FileSize ==> forallb(b, 32, b < p.FileSize && !covered(p, b) ==> exists(q, 0, len(result), result[q].DataOffset <= b && b - result[q].DataOffset < result[q].DataLength))
+//@   loop 1 invariant entries: forall(i, 0, len(segments), has(p.OffsetRecord, int(segments[i].DataOffset)) && uint32(p.OffsetRecord[int(segments[i].DataOffset)]) == segments[i].DataLength)
+//@   loop 1 invariant segsInside: forall(i, 0, len(segments), segments[i].DataLength > 0 && int(segments[i].DataOffset) + int(segments[i].DataLength) <= int(p.FileSize))
+//@   loop 1 invariant fresh: segments == nil || fresh(segments)
+//@   loop 2 invariant nonempty: len(segments) > 0
+//@   loop 2 invariant idx: 0 - 1 <= rangeindex && rangeindex < len(segments)
+//@   loop 2 invariant sep: disjoint(missSegments, segments)
+//@   loop 2 invariant entries2: forall(i, 0, len(segments), has(p.OffsetRecord, int(segments[i].DataOffset)) && uint32(p.OffsetRecord[int(segments[i].DataOffset)]) == segments[i].DataLength)
+//@   loop 2 invariant segsInside: forall(i, 0, len(segments), segments[i].DataLength > 0 && int(segments[i].DataOffset) + int(segments[i].DataLength) <= int(p.FileSize))
+//@   loop 2 invariant sorted: forall(i, 0, len(segments), forall(j, i, len(segments), segments[i].DataOffset <= segments[j].DataOffset))
+//@   loop 2 invariant cur: rangeindex >= 0 ==> int(currentOffset) == int(segments[rangeindex].DataOffset) + int(segments[rangeindex].DataLength)
+//@   loop 2 invariant cur0: rangeindex + 1 == 0 ==> currentOffset == 0
+//@   loop 2 invariant empty0: rangeindex + 1 == 0 ==> len(missSegments) == 0
+//@   loop 2 invariant bound: currentOffset <= p.FileSize
+//@   loop 2 invariant positive: forall(q, 0, len(missSegments), missSegments[q].DataLength > 0)
+//@   loop 2 invariant inside: forall(q, 0, len(missSegments), rangeindex >= 0 && int(missSegments[q].DataOffset) + int(missSegments[q].DataLength) <= int(segments[rangeindex].DataOffset))
+//@   loop 2 invariant ascending: forall(q, 0, len(missSegments)-1, int(missSegments[q].DataOffset) + int(missSegments[q].DataLength) < int(missSegments[q+1].DataOffset))
+//@   loop 2 invariant none_omitted: forallb(b, 32, b < currentOffset && !covered(p, b) ==> exists(q, 0, len(missSegments), missSegments[q].DataOffset <= b && b - missSegments[q].DataOffset < missSegments[q].DataLength))
+//@   loop 2 invariant fresh: missSegments == nil || fresh(missSegments)
+//@   focus entries: dom
+//@   focus entries2: entries sep fresh idx nonempty
+//@   focus segsInside: sep fresh idx nonempty dom
+//@   focus sorted: sep fresh idx nonempty
+//@   focus cur: segsInside sep fresh idx nonempty
+//@   focus bound: segsInside idx nonempty
+//@   focus positive: sep fresh
+//@   focus inside: sorted sep fresh idx cur empty0 segsInside bound nonempty
+//@   focus ascending: inside cur segsInside empty0 sep fresh idx bound nonempty
+//@   focus none_omitted: dom entries2 cur segsInside sep fresh idx bound nonempty sorted
